@@ -108,7 +108,7 @@ def extract_content_and_file_path(program: str) -> Tuple[str, str]:
 
     """
     file_path = ""
-    if os.path.exists(program):
+    if os.path.isfile(program):
         # PFDL program was passed as a file path
         file_path = program
         pfdl_string = load_file(program)
